@@ -602,3 +602,244 @@ pub fn bm_scenarios(three: bool) -> Vec<Scenario<Bm>> {
     });
     v
 }
+
+// ---------------------------------------------------------------------------
+// Catalog / query cache scenarios (S11) and HNSW scenarios (S12)
+// ---------------------------------------------------------------------------
+
+use grafeo_common::types::{LabelId, PropertyKeyId};
+use grafeo_core::index::vector::{DistanceMetric, HnswConfig, HnswIndex};
+use grafeo_engine::catalog::{Catalog, IndexType};
+use grafeo_engine::query::cache::{CacheKey, QueryCache};
+use grafeo_engine::query::plan::{LogicalOperator, LogicalPlan};
+use grafeo_engine::query::processor::QueryLanguage;
+
+pub struct Cat {
+    pub cat: Catalog,
+    pub cache: QueryCache,
+    pub ids: Mutex<Vec<u32>>,
+}
+fn cat_make() -> Cat {
+    let cat = Catalog::new();
+    cat.get_or_create_label("L0");
+    Cat { cat, cache: QueryCache::new(4), ids: Mutex::new(vec![]) }
+}
+fn cat_observe(o: &Cat) -> String {
+    let mut labels: Vec<String> = o.cat.all_labels().iter().map(|l| l.to_string()).collect();
+    labels.sort();
+    let l0 = LabelId::new(0);
+    let mut idx: Vec<u32> = o.cat.indexes_for_label(l0).iter().map(|i| i.0).collect();
+    idx.sort();
+    format!("labels={labels:?} label_count={} indexes={} for_l0={idx:?} cached={}", o.cat.label_count(), o.cat.index_count(), o.cache.get_optimized(&key()).is_some())
+}
+fn cat_invariants(o: &Cat, _r: &[Vec<String>]) -> Vec<(String, String)> {
+    let mut out = vec![];
+    // name <-> id maps agree, ids dense and unique
+    let names = o.cat.all_labels();
+    for (i, n) in names.iter().enumerate() {
+        if o.cat.get_label_id(n) != Some(LabelId::new(i as u32)) {
+            out.push(("catalog-maps-disagree".into(), format!("label {n:?} at position {i} maps to {:?}", o.cat.get_label_id(n))));
+        }
+    }
+    let mut sorted: Vec<String> = names.iter().map(|n| n.to_string()).collect();
+    sorted.sort();
+    let before = sorted.len();
+    sorted.dedup();
+    if sorted.len() != before {
+        out.push(("duplicate-label".into(), format!("labels {names:?}")));
+    }
+    // index lookup structures agree with the primary index table
+    let l0 = LabelId::new(0);
+    let by_label = o.cat.indexes_for_label(l0);
+    let by_lp = o.cat.indexes_for_label_property(l0, PropertyKeyId::new(0));
+    for id in by_label.iter().chain(by_lp.iter()) {
+        if o.cat.get_index(*id).is_none() {
+            out.push(("index-lookup-has-dropped-index".into(), format!("index {id:?} is listed for its label but get_index returns None")));
+        }
+    }
+    if by_label.len() != o.cat.index_count() || by_lp.len() != o.cat.index_count() {
+        out.push(("index-lookup-torn".into(), format!("index_count = {}, by label = {by_label:?}, by label+property = {by_lp:?}", o.cat.index_count())));
+    }
+    out
+}
+fn key() -> CacheKey {
+    CacheKey::new("MATCH (n) RETURN n", QueryLanguage::Gql)
+}
+fn plan() -> LogicalPlan {
+    LogicalPlan::new(LogicalOperator::Empty)
+}
+
+pub fn cat_scenarios(three: bool) -> Vec<Scenario<Cat>> {
+    let mut v = vec![];
+    let mut t = vec![
+        vec![Op { name: "get_or_create_label(X)", f: (|o: &Cat, _| format!("{}", o.cat.get_or_create_label("X").0 > 0)) as fn(&Cat, usize) -> String }],
+        vec![Op { name: "get_or_create_label(X)'", f: |o: &Cat, _| format!("{}", o.cat.get_or_create_label("X").0 > 0) }],
+    ];
+    if three {
+        t.push(vec![Op { name: "get_or_create_label(Y)", f: |o: &Cat, _| format!("{}", o.cat.get_or_create_label("Y").0 > 0) }]);
+    }
+    v.push(Scenario { name: "S11a-label-registration", what: "two threads register the same new label (+ one another label): one id per name, both maps agree", make: cat_make, threads: t, observe: cat_observe, invariants: cat_invariants, linearizable: true });
+    v.push(Scenario {
+        name: "S11b-create-drop-index",
+        what: "create_index || create_index + drop_index(of the first one seen) || indexes_for_label: the per-label and per-(label,property) lists agree with the index table",
+        make: cat_make,
+        threads: vec![
+            vec![Op {
+                name: "create_index",
+                f: |o: &Cat, _| {
+                    let id = o.cat.create_index(LabelId::new(0), PropertyKeyId::new(0), IndexType::Hash);
+                    o.ids.lock().unwrap().push(id.0);
+                    "created".into()
+                },
+            }],
+            vec![
+                Op {
+                    name: "create_index'",
+                    f: |o: &Cat, _| {
+                        let id = o.cat.create_index(LabelId::new(0), PropertyKeyId::new(0), IndexType::BTree);
+                        o.ids.lock().unwrap().push(id.0);
+                        "created".into()
+                    },
+                },
+                Op {
+                    name: "drop_index(own)",
+                    f: |o: &Cat, _| {
+                        let ids = o.cat.indexes_for_label(LabelId::new(0));
+                        // drop the BTree one (ours), whichever id it got
+                        let mine = ids.iter().find(|i| o.cat.get_index(**i).is_some_and(|d| matches!(d.index_type, IndexType::BTree)));
+                        format!("{}", mine.is_some_and(|i| o.cat.drop_index(*i)))
+                    },
+                },
+            ],
+        ],
+        observe: |o: &Cat| format!("indexes={} for_l0={}", o.cat.index_count(), o.cat.indexes_for_label(LabelId::new(0)).len()),
+        invariants: cat_invariants,
+        linearizable: true,
+    });
+    v.push(Scenario {
+        name: "S11c-query-cache",
+        what: "put_optimized || get_optimized || invalidate on one key: no deadlock, answers explained by a sequential order",
+        make: cat_make,
+        threads: vec![
+            vec![Op {
+                name: "put_optimized",
+                f: |o: &Cat, _| {
+                    o.cache.put_optimized(key(), plan());
+                    "()".into()
+                },
+            }],
+            vec![Op { name: "get_optimized", f: |o: &Cat, _| format!("{}", o.cache.get_optimized(&key()).is_some()) }, Op {
+                name: "invalidate",
+                f: |o: &Cat, _| {
+                    o.cache.invalidate(&key());
+                    "()".into()
+                },
+            }],
+        ],
+        observe: |o: &Cat| format!("cached={}", o.cache.get_optimized(&key()).is_some()),
+        invariants: |_o: &Cat, _r| vec![],
+        linearizable: true,
+    });
+    v
+}
+
+pub struct Hn {
+    pub idx: HnswIndex,
+}
+fn hn_make() -> Hn {
+    let idx = HnswIndex::with_seed(HnswConfig::new(2, DistanceMetric::Euclidean).with_m(2), 7);
+    idx.insert(NodeId::new(0), &[0.0, 0.0]);
+    idx.insert(NodeId::new(1), &[1.0, 0.0]);
+    idx.insert(NodeId::new(2), &[0.0, 1.0]);
+    Hn { idx }
+}
+fn hn_point(id: u64) -> [f32; 2] {
+    match id {
+        0 => [0.0, 0.0],
+        1 => [1.0, 0.0],
+        2 => [0.0, 1.0],
+        _ => [2.0, 2.0],
+    }
+}
+/// A search result is sound if ids are distinct, were present at some point, and carry their true distance, sorted.
+fn hn_check(res: &[(NodeId, f32)], q: [f32; 2], k: usize) -> Option<String> {
+    if res.len() > k {
+        return Some(format!("{} results for k = {k}", res.len()));
+    }
+    let mut seen = vec![];
+    let mut last = -1.0f32;
+    for (id, d) in res {
+        if seen.contains(id) {
+            return Some(format!("duplicate id {id:?}"));
+        }
+        seen.push(*id);
+        if id.as_u64() > 3 {
+            return Some(format!("unknown id {id:?}"));
+        }
+        let p = hn_point(id.as_u64());
+        let want = ((p[0] - q[0]).powi(2) + (p[1] - q[1]).powi(2)).sqrt();
+        if (want - d).abs() > 1e-4 {
+            return Some(format!("id {id:?} reported at distance {d}, true distance {want}"));
+        }
+        if *d < last {
+            return Some("distances not sorted".into());
+        }
+        last = *d;
+    }
+    None
+}
+fn op_search(o: &Hn, _t: usize) -> String {
+    let q = [0.1f32, 0.1];
+    let r = o.idx.search(&q, 3);
+    match hn_check(&r, q, 3) {
+        Some(e) => format!("UNSOUND: {e}"),
+        None => "sound".into(),
+    }
+}
+
+pub fn hn_scenarios(three: bool) -> Vec<Scenario<Hn>> {
+    let mut t = vec![
+        vec![Op {
+            name: "insert(3)",
+            f: (|o: &Hn, _| {
+                o.idx.insert(NodeId::new(3), &[2.0, 2.0]);
+                "()".into()
+            }) as fn(&Hn, usize) -> String,
+        }],
+        vec![Op { name: "search", f: op_search }],
+    ];
+    if three {
+        t.push(vec![Op { name: "remove(2)", f: |o: &Hn, _| format!("{}", o.idx.remove(NodeId::new(2))) }]);
+    }
+    let invariants: fn(&Hn, &[Vec<String>]) -> Vec<(String, String)> = |o, r| {
+        let mut out = vec![];
+        for rs in r {
+            for x in rs {
+                if let Some(e) = x.strip_prefix("UNSOUND: ") {
+                    out.push(("hnsw-unsound-result".into(), e.to_string()));
+                }
+            }
+        }
+        // quiescent: every present id is found by an exhaustive search, removed ids never
+        let q = [0.1f32, 0.1];
+        let res = o.idx.search_with_ef(&q, 4, 16);
+        if let Some(e) = hn_check(&res, q, 4) {
+            out.push(("hnsw-unsound-result".into(), format!("after quiescence: {e}")));
+        }
+        for (id, _) in &res {
+            if !o.idx.contains(*id) {
+                out.push(("hnsw-removed-id-returned".into(), format!("search returns {id:?} which contains() denies")));
+            }
+        }
+        out
+    };
+    vec![Scenario {
+        name: "S12-hnsw-insert-search-remove",
+        what: "insert(3) || search (|| remove(2)) on a 3-vector index: results sound (distinct known ids, true distances, sorted), no deadlock, no panic; removed ids never returned afterwards",
+        make: hn_make,
+        threads: t,
+        observe: |o: &Hn| format!("len={}", o.idx.len()),
+        invariants,
+        linearizable: false,
+    }]
+}
